@@ -740,14 +740,18 @@ func c17EveryRuleFinalizesWithTheBase(c *Ctx) {
 // spelling alone skips the rewrite for every request that matched with a different case.
 func c17RewriteAgreesWithMatchOnCase(c *Ctx) {
 	const rule = "C17.R17"
-	c.Rule(rule, "a case-insensitive path match hands the rewrite the request's own spelling of the matched path", 1)
+	c.Rule(rule, "a case-insensitive or regex path match hands the rewrite the request's own spelling of the matched path", 2)
 	pkg := "pkg/router"
 	n := 0
 	for _, fn := range c.PkgFuncs(pkg) {
 		if fn.Name() != "Match" || fn.Signature.Recv() == nil || fn.Synthetic != "" || !embedsRuleBase(fn.Signature.Recv().Type(), 0) {
 			continue
 		}
-		if len(callsIn(fn, false, func(cc *ssa.CallCommon) bool { return calleeName(cc) == "strings.EqualFold" })) == 0 {
+		// a match that is not a case-sensitive literal comparison: EqualFold, or a regular expression (S81) - what the
+		// configuration spells (a pattern) is then not what the request's path begins with
+		if len(callsIn(fn, false, func(cc *ssa.CallCommon) bool {
+			return calleeName(cc) == "strings.EqualFold" || strings.HasPrefix(calleeName(cc), "(*regexp.Regexp).")
+		})) == 0 {
 			continue
 		}
 		fin := c.methodOf(fn.Signature.Recv().Type(), "FinalizeRequestHeaders")
@@ -784,7 +788,7 @@ func c17RewriteAgreesWithMatchOnCase(c *Ctx) {
 			walk(arg, 0)
 			c.Check(rule, funcKey(fin)+":rewrite-uses-request-spelling", cs.Instr.Pos(), fromRequest,
 				"the matched path given to the rewrite can be the request's own spelling",
-				"Match of this rule compares the path with strings.EqualFold but FinalizeRequestHeaders always gives the rewrite the configured spelling, which finalizePathHeader looks for with a case-sensitive prefix test: a request that matched with a different case is forwarded without the configured prefix_rewrite")
+				"Match of this rule compares the path with strings.EqualFold or a regular expression but FinalizeRequestHeaders always gives the rewrite the configured string, which finalizePathHeader looks for with a case-sensitive prefix test: a request that matched with a different case (or a regex route, whose pattern is no prefix of any path) is forwarded without the configured prefix_rewrite")
 		}
 	}
 	if n == 0 {
@@ -1122,7 +1126,7 @@ func c20RawSectionsRedacted(c *Ctx) {
 // set (decided on the lookup's error, not on the value being empty).
 func c01EmptyQueryIsAQuery(c *Ctx) {
 	const rule = "C01.R13"
-	c.Rule(rule, "an empty query string is forwarded: presence of the query, not its content, decides the '?'", 2)
+	c.Rule(rule, "an empty query string is forwarded (HTTP/1 and HTTP/2): presence of the query, not its content, decides the '?'", 4)
 	pkg := "pkg/stream/http"
 	inj := c.F(pkg, "injectCtxVarFromProtocolHeaders")
 	build := c.F(pkg, "buildUrlFromCtxVar")
